@@ -2,6 +2,9 @@ use rand::Rng;
 use std::cmp::Ordering;
 use std::net::SocketAddr;
 use std::time::Duration;
+#[cfg(resolved_verif)]
+use simseam::net::{TcpStream, UdpSocket};
+#[cfg(not(resolved_verif))]
 use tokio::net::{TcpStream, UdpSocket};
 use tokio::time::timeout;
 
@@ -24,6 +27,8 @@ pub async fn query_nameserver(
 ) -> Option<Message> {
     let mut request = Message::from_question(rand::rng().random(), question);
     request.header.recursion_desired = recursion_desired;
+    #[cfg(resolved_verif)]
+    simseam::rng::set_request_id(&mut request.header.id);
 
     match request.to_octets() {
         Ok(mut serialised_request) => {
